@@ -535,6 +535,9 @@ theorem pop_stack (o : Ops) (s : MSt) (el : Str) : (pop o s el).stack = s.stack 
 theorem flag_frame4 (c : Core) (a b : Bool) : Frame4 c { c with inauthor := a, incontributor := b } :=
   ⟨rfl, rfl, rfl, rfl, rfl, rfl, rfl, rfl, rfl, rfl, rfl, fun _ => rfl⟩
 
+theorem pflag_frame4 (c : Core) (a : Bool) : Frame4 c { c with inpublisher := a } :=
+  ⟨rfl, rfl, rfl, rfl, rfl, rfl, rfl, rfl, rfl, rfl, rfl, fun _ => rfl⟩
+
 theorem startAuthorKinds_frame4 (c : Core) (kind : Str) (a : List (Str × Str)) (c' : Core) (es : List Elem)
     (h : startAuthorKinds c kind a = some (c', es)) : Frame4 c c' := by
   have P : ∀ (c0 : Core) (d : D), Frame4 c c0 → Frame4 c (putContext c0 d) := fun c0 d h0 => h0.trans (putContext_frame4 _ _)
@@ -559,7 +562,11 @@ theorem startAuthorKinds_frame4 (c : Core) (kind : Str) (a : List (Str × Str)) 
         · injection h with h; injection h with h1 _; rw [← h1]; exact Frame4.refl c
         · split at h
           · injection h with h; injection h with h1 _; rw [← h1]; exact Frame4.refl c
-          · cases h
+          · split at h
+            · injection h with h; injection h with h1 _; rw [← h1]; exact Frame4.refl c
+            · split at h
+              · injection h with h; injection h with h1 _; rw [← h1]; exact pflag_frame4 c true
+              · cases h
 
 theorem savePart_frame4 (o : Ops) (c : Core) (k : Str) (v : Option Str) (b : Bool) : Frame4 c (savePart o c k v b) := by
   unfold savePart
@@ -567,7 +574,9 @@ theorem savePart_frame4 (o : Ops) (c : Core) (k : Str) (v : Option Str) (b : Boo
   · exact putContext_frame4 _ _
   · split
     · exact putContext_frame4 _ _
-    · exact Frame4.refl c
+    · split
+      · exact putContext_frame4 _ _
+      · exact Frame4.refl c
 
 theorem popPlain_frame (s : MSt) (el : Str) :
     (popPlain s el).2.c = s.c ∧ ((popPlain s el).2.stack = s.stack ∨ ∃ top, s.stack = top :: (popPlain s el).2.stack) := by
@@ -600,7 +609,13 @@ theorem endAuthorKinds_ok (o : Ops) (s s1 : MSt) (kind : Str) (h : endAuthorKind
         · split at h
           · injection h with h; rw [← h]
             exact ⟨(pop_frame4 o s _).trans (savePart_frame4 _ _ _ _ _), pop_stack o s _⟩
-          · cases h
+          · split at h
+            · injection h with h; rw [← h]
+              exact ⟨(pop_frame4 o s _).trans (putContext_frame4 _ _), pop_stack o s _⟩
+            · split at h
+              · injection h with h; rw [← h]
+                exact ⟨(pop_frame4 o s _).trans ((pflag_frame4 _ false).trans (putContext_frame4 _ _)), pop_stack o s _⟩
+              · cases h
 
 theorem startLG_frame4 (o : Ops) (c : Core) (kind : Str) (a : List (Str × Str)) (c' : Core) (es : List Elem)
     (h : startLG o c kind a = .ok (c', es)) : Frame4 c c' := by
